@@ -17,8 +17,8 @@ var canonicalTerms = []string{"DA_XUE", "冬至", "小寒", "大寒", "立春", 
 
 func init() {
 	register(&Check{
-		ID:   "C03",
-		Rule: "every year table in the year set (thorough: 1..9998) x 31 entries: (a) the reported instant is a root of the library's own apparent-longitude function (verif export) for the entry's multiple of 15 deg within the one-second rounding of the table; (b) R3's independent longitude at the instant within 20 min + delta-T model spread (years 1..3000); (c) canonical names, strictly increasing, gaps 14.6..15.8 days, entries 24..30 of year Y equal entries 0..6 of year Y+1 to the second; (d) for every entry x {t-1s, t, t+1s, 00:00:00, 23:59:59 of its day} all 12 prev/next lookups against max/min over the table of the query's own lunar object; on every day of the year set GetJieQi/GetJie/GetQi/GetCurrent* against 'the entry whose civil date is that day'. non-trivial = lookups whose query is within one second of a term instant, and days carrying a term",
+		ID:     "C03",
+		Rule:   "every year table in the year set (thorough: 1..9998) x 31 entries: (a) the reported instant is a root of the library's own apparent-longitude function (verif export) for the entry's multiple of 15 deg within the one-second rounding of the table; (b) R3's independent longitude at the instant within 20 min + delta-T model spread (years 1..3000); (c) canonical names, strictly increasing, gaps 14.6..15.8 days, entries 24..30 of year Y equal entries 0..6 of year Y+1 to the second; (d) for every entry x {t-1s, t, t+1s, 00:00:00, 23:59:59 of its day} all 12 prev/next lookups against max/min over the table of the query's own lunar object; on every day of the year set GetJieQi/GetJie/GetQi/GetCurrent* against 'the entry whose civil date is that day'. non-trivial = lookups whose query is within one second of a term instant, and days carrying a term",
 		Assume: []string{"the root check uses the library's own series (exported under the verif tag) — it shows the table is what the ephemeris says, R3 shows the ephemeris is right to ~15 min", "R3 = Meeus ch.25 + Espenak-Meeus delta-T, self-tested against published values at start-up"},
 		Shards: func(tier string, seed int64) []Shard { return yearShards(tier, seed, 9998, "") },
 		Run:    runC03,
@@ -219,10 +219,10 @@ func c03Year(w *W, y int, maxRoot, maxR3 *float64) {
 				return termName(tq[best].Key) + "@" + tq[best].S.ToYmdHms()
 			}
 			type lk struct {
-				name          string
-				got           *calendar.JieQi
-				fwd, wd       bool
-				kind          int
+				name    string
+				got     *calendar.JieQi
+				fwd, wd bool
+				kind    int
 			}
 			lks := []lk{
 				{"GetPrevJieQi", lq.GetPrevJieQi(), false, false, 0}, {"GetNextJieQi", lq.GetNextJieQi(), true, false, 0},
